@@ -33,6 +33,7 @@ type conf struct {
 	timeout int
 	downMs  int // how = "restart": the endpoint refuses connections for this long after the close
 	during  int // calls issued while the endpoint is down (their outcome is not judged)
+	idleMs  int // the server closes this long after its last response (0: 10 ms); 1000, 2000 coincide with the client sender's 1 s poll
 }
 
 func scenario(c conf) *vm.Scenario {
@@ -169,7 +170,11 @@ func acceptor(c conf, ln vnet.Listener, closed chan int64) {
 					served++
 					if served == c.closeAt {
 						// let the client take the reply first: the close comes when the client is idle
-						vm.Sleep(int64(10 * time.Millisecond))
+						if c.idleMs > 0 {
+							vm.Sleep(int64(c.idleMs)*1e6 - vm.Now()%1e9) // at this offset into the second (the connection was made at t=0)
+						} else {
+							vm.Sleep(int64(10 * time.Millisecond))
+						}
 						switch c.how {
 						case "notify-close":
 							conn.Write((&tnet.Response{Version: 1, ID: 0, ResultDesc: "_reconnect_", Status: map[string]string{}}).Encode())
@@ -293,6 +298,11 @@ func main() {
 		for pol, pn := range []string{"oldest-first", "newest-first", "round-robin"} {
 			cc := c
 			cc.timeout = 3000
+			if c.idleMs > 0 {
+				cc.name = fmt.Sprintf("idle-close at %dms closeAt=%d how=%s delta=%dms after=%d par=%d bound=%d prune=%v policy=%s", c.idleMs, c.closeAt, c.how, c.deltaMs, c.after, c.par, bound, prune, pn)
+				cases = append(cases, e1.Case{Sc: scenario(cc), Opt: vm.Options{Bound: bound, StrictDev: true, Prune: prune, Policy: pol}, Budget: budget, MinOutcomes: 1})
+				continue
+			}
 			cc.name = fmt.Sprintf("closeAt=%d how=%s delta=%dms after=%d par=%d down=%d during=%d bound=%d prune=%v policy=%s", c.closeAt, c.how, c.deltaMs, c.after, c.par, c.downMs, c.during, bound, prune, pn)
 			cases = append(cases, e1.Case{Sc: scenario(cc), Opt: vm.Options{Bound: bound, StrictDev: true, Prune: prune, Policy: pol}, Budget: budget, MinOutcomes: 1})
 		}
@@ -314,6 +324,23 @@ func main() {
 		add(conf{closeAt: 1, how: how, deltaMs: 1, after: 1, par: 2}, 1, false)
 		if run.Thorough() {
 			add(conf{closeAt: 1, how: how, deltaMs: 999, after: 1, par: 2}, 2, true)
+		}
+	}
+	// idle close at the instants of the client sender's 1 s poll (and just beside them)
+	for _, how := range []string{"close", "notify-close", "reset"} {
+		for _, idle := range []int{999, 1000, 2000} {
+			add(conf{closeAt: 1, how: how, deltaMs: 1, after: 2, par: 1, idleMs: idle}, 1, false)
+			if how == "close" || run.Thorough() {
+				deep := 2
+				if run.Thorough() {
+					deep = 3
+				}
+				add(conf{closeAt: 1, how: how, deltaMs: 1, after: 2, par: 1, idleMs: idle}, deep, true)
+				for k := 1; k <= 3; k++ {
+					cases[len(cases)-k].Opt.DevFrom, cases[len(cases)-k].Opt.DevTo = int64(idle-5)*1e6, int64(idle+5)*1e6
+					cases[len(cases)-k].Sc.Name += " deviations-within-5ms-of-the-close"
+				}
+			}
 		}
 	}
 	// restart: the endpoint is unreachable for a while; calls made meanwhile may fail, calls after it must succeed
